@@ -95,6 +95,7 @@ func (p *storageProvider) releaseLock() error {
 	if err := p.lockFile.Close(); err != nil {
 		return fmt.Errorf("failed to close lock file: %w", err)
 	}
+	verifPoint("lock.releasing", lockPath)
 
 	if err := os.Remove(lockPath); err != nil && !os.IsNotExist(err) {
 		return fmt.Errorf("failed to remove lock file: %w", err)
